@@ -31,7 +31,10 @@ class C04(rowgen.RowGenProp):
     lean_module = "Wheatley.Props.C04"
     theorems = ["Wheatley.C04.call_inert_before_position", "Wheatley.C04.undefined_call_no_immediate_change",
                 "Wheatley.C04.bob_fires", "Wheatley.C04.single_fires", "Wheatley.C04.queued_call_runs_out",
-                "Wheatley.C04.plain_stays_plain", "Wheatley.C04.dixon_bob_law", "Wheatley.C04.deterministic"]
+                "Wheatley.C04.plain_stays_plain", "Wheatley.C04.dixon_bob_law", "Wheatley.C04.deterministic",
+                "Wheatley.C04.cli_calls_are_the_given_ones"]
+    # the command line: what of the built configuration this property is about
+    cli_fields = ['source']
     level_text = ("theorems: a pending call is inert until a row whose lead index has a definition; there its first "
                   "change is used and the flags clear; a queued call of length n occupies exactly n rows and leaves a "
                   "plain state; plain states stay plain (all unbounded). correspondence: random methods x call "
